@@ -110,7 +110,7 @@ def run_in_state(prog, fn: Function, st, config: Optional[Dict[str, T]] =
         if f.cls is not None and f.name == fn.name and f is not fn:
             return True          # super().same_method(...)
         return False
-    it.inline = inline
+    it._explicit_inline = inline
     return it.run(fn, dict(config or {}), self_cls)
 
 
